@@ -323,6 +323,14 @@ def m_apply(ms, op):
             return None
         out = m_index(src, op["idx"])
         return {op["dst"]: out}, None
+    if name == "concat_models":
+        # a stack IS an iterable of arrays (one per model): concatenate(stack) joins its models into one array
+        src = ms[op["src"]]
+        if src is None or src.kind != "stack" or src.m == 0:
+            return None
+        parts = [model_of(src, k) for k in range(src.m)]
+        joined = m_apply(parts + [None], {"op": "concat", "srcs": list(range(src.m)), "dst": src.m})
+        return {op["dst"]: joined[0][src.m]}, None
     if name == "concat":
         parts = [ms[r] for r in op["srcs"]]
         if any(p is None or p.kind == "atom" for p in parts):
@@ -722,6 +730,8 @@ def generate(rng):
                     srcs.append(rng.choice(lv))
                 op = {"op": "concat", "srcs": srcs, "dst": dst, "plus": len(srcs) == 2 and rng.random() < 0.5,
                       "as": rng.choice(["list", "list", "tuple", "generator", "iter", "values"])}
+            elif r < 0.51 and m.kind == "stack" and m.m >= 1 and rng.random() < 0.5:
+                op = {"op": "concat_models", "src": a, "dst": dst}
             elif r < 0.51:
                 if m.kind != "array":
                     continue
@@ -1147,6 +1157,8 @@ class Sim:
                 how = op.get("as", "list")
                 return {op["dst"]: struc.concatenate(as_iterable(parts, how))}, None
             return f
+        if name == "concat_models":
+            return lambda: ({op["dst"]: struc.concatenate(R[op["src"]])}, None)
         if name == "stack_variants":
             def f():
                 src = R[op["src"]]
